@@ -120,8 +120,11 @@ func rootAlloc(v ssa.Value) *ssa.Alloc {
 func (e *Engine) enterLoop(fr *Frame, li *loopInfo, cur *State) *State {
 	key := e.loopKey(fr, li)
 	inv := e.invs[key]
-	if inv == nil {
+	if inv == nil && !isRangeLoop(li) {
 		unsup("loop %d of %s has no invariant (%s) and no unroll bound", li.ord, fnName(fr.fn), "verif_inv_"+key)
+	}
+	if inv == nil {
+		inv = e.trueInv
 	}
 	if fr.heads == nil {
 		fr.heads = map[*loopInfo]*loopHead{}
@@ -140,20 +143,142 @@ func (e *Engine) enterLoop(fr *Frame, li *loopInfo, cur *State) *State {
 			continue // declared inside the loop
 		}
 		t := a.Type().(*types.Pointer).Elem()
-		ts := freshTerms("loop."+a.Comment, t)
+		ts := freshTerms(fmt.Sprintf("loop%d.%s", e.loopSeq+1, a.Comment), t)
 		st.assume(wfAssumptions(ts, t, true))
 		st.cells[k] = ts
 		delete(st.clos, k)
 		delete(st.caddr, k)
 	}
-	for _, name := range e.loopModifiedMems(fr, li) {
-		if m, ok := st.mems[name]; ok {
-			st.mems[name] = NewBaseMem(name, m.ksort, m.sort, FreshName("L."+name))
+	e.loopSeq++
+	loopID := e.loopSeq
+	mods := e.loopModifiedMems(fr, li)
+	havocAll := false
+	for _, name := range mods {
+		if name == "*" {
+			havocAll = true
+		}
+	}
+	if havocAll {
+		mods = nil
+		for name := range st.mems {
+			if !strings.HasPrefix(name, "global:") {
+				mods = append(mods, name)
+			}
+		}
+	}
+	entryMems := map[string]*Mem{}
+	for k, v := range st.mems {
+		entryMems[k] = v
+	}
+	fullHavoc := func(name string) {
+		if writeLog != nil {
+			writeLog(name, nil)
+		}
+		if m, ok := entryMems[name]; ok {
+			st.mems[name] = NewBaseMem(name, m.ksort, m.sort, FreshName(fmt.Sprintf("L%d.%s", loopID, name)))
 		} else {
-			// memory not touched so far: give it a loop-local base as well
 			ks, so := e.memShape(name)
 			if so >= 0 {
-				st.mems[name] = NewBaseMem(name, ks, so, FreshName("L."+name))
+				st.mems[name] = NewBaseMem(name, ks, so, FreshName(fmt.Sprintf("L%d.%s", loopID, name)))
+			}
+		}
+	}
+	for _, name := range mods {
+		fullHavoc(name)
+	}
+	// Frame discovery: run the body once from the fully havoc'd head and look at
+	// the regions actually written. Two-key (region, index) memories whose writes
+	// only target regions allocated inside the loop, or regions named by
+	// loop-invariant terms, keep everything else.
+	if len(mods) > 0 && !e.noFrameDiscovery {
+		seq0 := e.allocSeq
+		logged := map[string][]*Term{}
+		savedLog := writeLog
+		writeLog = func(name string, region *Term) {
+			logged[name] = append(logged[name], region)
+			if savedLog != nil {
+				savedLog(name, region)
+			}
+		}
+		probe := st.clone()
+		if ivq, ok := e.tryEvalLoopFnQuiet(fr, probe, inv, li); ok {
+			probe.assume(ivq.term())
+			func() {
+				q := fr.quiet
+				fr.quiet = true
+				savedHeads := fr.heads
+				fr.heads = map[*loopInfo]*loopHead{}
+				for k, v := range savedHeads {
+					fr.heads[k] = v
+				}
+				savedRegs := map[ssa.Value]Value{}
+				for k, v := range fr.regs {
+					savedRegs[k] = v
+				}
+				defer func() {
+					fr.quiet = q
+					fr.heads = savedHeads
+					fr.regs = savedRegs
+					if r := recover(); r != nil {
+						if _, isU := r.(unsupported); !isU {
+							panic(r)
+						}
+						logged = nil
+					}
+				}()
+				var tmp []retPoint
+				e.execRegion(fr, li, probe, &tmp)
+			}()
+		} else {
+			logged = nil
+		}
+		writeLog = savedLog
+		if logged != nil {
+			prefix := fmt.Sprintf("L%d.", loopID)
+			vprefix := fmt.Sprintf("loop%d.", loopID)
+			for _, name := range mods {
+				m, ok := entryMems[name]
+				if !ok || len(m.ksort) != 2 {
+					continue
+				}
+				var regions []*Term
+				fresh := false
+				okFrame := true
+				if len(logged["*"]) > 0 {
+					continue
+				}
+				for _, r := range logged[name] {
+					if r == nil {
+						okFrame = false
+						break
+					}
+					if r.IsConst() && r.val.Uint64()>>60 == 0xF && r.val.Uint64()&0x0FFFFFFFFFFFFFFF > seq0 {
+						fresh = true
+						continue
+					}
+					if dependsOnLoop(r, prefix, vprefix) {
+						okFrame = false
+						break
+					}
+					dup := false
+					for _, x := range regions {
+						if x == r {
+							dup = true
+						}
+					}
+					if !dup {
+						regions = append(regions, r)
+					}
+				}
+				if !okFrame {
+					continue
+				}
+				nm := m
+				if fresh {
+					nm = nm.HavocFresh(seq0)
+				}
+				nm = nm.HavocRegions(regions)
+				st.mems[name] = nm
 			}
 		}
 	}
@@ -169,7 +294,7 @@ func (e *Engine) enterLoop(fr *Frame, li *loopInfo, cur *State) *State {
 	if dec := e.decs[key]; dec != nil {
 		d := e.evalLoopFnQuiet(fr, st, dec, li)
 		h.dec = d.term()
-	} else {
+	} else if !isRangeLoop(li) {
 		e.warn("loop %d of %s has no decreases measure: partial correctness only", li.ord, fnName(fr.fn))
 	}
 	fr.heads[li] = h
@@ -198,6 +323,9 @@ func (e *Engine) backEdge(fr *Frame, li *loopInfo, s *State, from *ssa.BasicBloc
 	key := e.loopKey(fr, li)
 	inv := e.invs[key]
 	h := fr.heads[li]
+	if inv == nil && isRangeLoop(li) {
+		inv = e.trueInv
+	}
 	if inv == nil || h == nil {
 		unsup("back edge of loop %d without invariant", li.ord)
 	}
@@ -441,3 +569,37 @@ func (e *Engine) callMods(c *ssa.CallCommon, set map[string]bool, seen map[*ssa.
 }
 
 func (e *Engine) invokeWrites(c *ssa.CallCommon) bool { return false }
+
+func dependsOnLoop(t *Term, ufPrefix, varPrefix string) bool {
+	found := false
+	Walk(t, map[int]bool{}, func(x *Term) {
+		if (x.op == "uf" || x.op == "var") && (strings.HasPrefix(x.name, sanitize(ufPrefix)) || strings.HasPrefix(x.name, sanitize(varPrefix))) {
+			found = true
+		}
+	})
+	return found
+}
+
+func (e *Engine) tryEvalLoopFnQuiet(fr *Frame, st *State, f *ssa.Function, li *loopInfo) (v Value, ok bool) {
+	defer func() {
+		if r := recover(); r != nil {
+			if _, isU := r.(unsupported); isU {
+				ok = false
+				return
+			}
+			panic(r)
+		}
+	}()
+	return e.evalLoopFnQuiet(fr, st, f, li), true
+}
+
+// isRangeLoop: loops over a map or string iterator terminate by Go semantics
+// (finite collection, each element visited at most once).
+func isRangeLoop(li *loopInfo) bool {
+	for _, in := range li.head.Instrs {
+		if _, ok := in.(*ssa.Next); ok {
+			return true
+		}
+	}
+	return false
+}
